@@ -268,6 +268,14 @@ func registerNatives(e *Engine) {
 		}
 		return nil
 	})
+	vp("FreezeGlobals", func(ex *Exec, site ssa.Instruction, args []Value) Value {
+		// package-level variables of the repository become read-only (incl. those touched later)
+		ex.frozenAll = true
+		for _, o := range ex.globals {
+			o.Frozen = true
+		}
+		return nil
+	})
 	vp("Disjoint", func(ex *Exec, site ssa.Instruction, args []Value) Value {
 		seen := map[interface{}]bool{}
 		ex.walk(args[0], func(x interface{}) {
